@@ -1021,6 +1021,18 @@ Error query_rw_info(Arch arch, const BaseInst& inst, const Operand_* operands, s
       }
     }
 
+    // The Reg/Mem data is per instruction, not per form. If more than one register operand is flagged only the one that the all-register
+    // form really encodes in ModRM.rm can be replaced: the general purpose side of a move between register files (movd, movq, kmov) and
+    // the last source of a three-operand [RVM] form whose [VMI|RMI] sibling flags the second operand (vpsllw, vpermilps, vpermq, ...).
+    if ((rm_ops_mask & (rm_ops_mask - 1u)) != 0u) {
+      if (op_count == 2 && operands[0].as<Reg>().reg_group() != operands[1].as<Reg>().reg_group()) {
+        rm_ops_mask = operands[0].as<Reg>().is_gp() ? 0x1u : operands[1].as<Reg>().is_gp() ? 0x2u : rm_ops_mask;
+      }
+      else if (op_count == 3 && rm_ops_mask == 0x6u) {
+        rm_ops_mask = 0x4u;
+      }
+    }
+
     if (rm_ops_mask && !inst.has_option(InstOptions::kX86_ER)) {
       Support::BitWordIterator<uint32_t> it(rm_ops_mask);
       do {
